@@ -25,28 +25,31 @@ RULE = ("21 oriented models x shape parameters from each model's random generato
         "varies by more than 1% over directions at that q (the average is not trivial).")
 ASSUMPTIONS = ["raw library functions are the model's own 1-D and 2-D functions",
                "each model is held to its own integration accuracy (observed convergence of both sides)"]
-REQUIRED_MONITORS = ["1d_is_spherical_average", "api_1d_is_average_of_2d"]
+REQUIRED_MONITORS = ["1d_is_spherical_average", "api_1d_is_average_of_2d", "integration_size_independent_where_resolved"]
 REQUIRED_BUCKETS = {"quick": ["sym:ac", "sym:abc", "qsize<1", "qsize>5", "deciding"]}
 REQUIRED_BUCKETS["thorough"] = REQUIRED_BUCKETS["quick"]
 
 _hi = {}
 
 
-def hi_raw(i):
-    """The same model with its Gauss rule replaced by a finer one (written to scratch, not to the repo)."""
-    if i.id in _hi:
-        return _hi[i.id]
+def hi_raw(i, n=None):
+    """The same model with its Gauss rule replaced by another one (written to scratch, not to the repo):
+    by default a finer one; *n* picks the size."""
+    key = (i.id, n)
+    if key in _hi:
+        return _hi[key]
     r = None
     if i.source and any(os.path.basename(s).startswith("gauss") for s in i.source):
         from sasmodels.gengauss import gengauss
-        n = 150 if any("gauss76" in s or "gauss20" in s for s in i.source) else 400
+        if n is None:
+            n = 150 if any("gauss76" in s or "gauss20" in s for s in i.source) else 400
         d = os.path.join(os.environ.get("RTM_SCRATCH", "/tmp"), "gauss")
         os.makedirs(d, exist_ok=True)
         path = os.path.join(d, "gauss%d.c" % n)
         if not os.path.exists(path):
             gengauss(n, path)
         i2 = copy.copy(i)
-        # every Gauss table of the model becomes the finer one (GAUSS_N/Z/W are defined by the last include)
+        # every Gauss table of the model becomes the new one (GAUSS_N/Z/W are defined by the last include)
         i2.source = [path if os.path.basename(s).startswith("gauss") else s for s in i.source]
         seen, src = set(), []
         for s in i2.source:
@@ -55,11 +58,23 @@ def hi_raw(i):
                 seen.add(s)
         i2.source = src
         try:
-            r = native.RawLib(i2, os.path.join(os.environ.get("RTM_SCRATCH", "/tmp"), "rawlib-hi"))
+            r = native.RawLib(i2, os.path.join(os.environ.get("RTM_SCRATCH", "/tmp"), "rawlib-g%d" % n))
         except Exception:
             r = None
-    _hi[i.id] = r
+    _hi[key] = r
     return r
+
+
+def odd_size(i):
+    """An odd rule size next to the model's own (the shipped tables are all even)."""
+    names = [os.path.basename(s) for s in (i.source or [])]
+    if any(n_.startswith("gauss150") for n_ in names):
+        return 149
+    if any(n_.startswith("gauss76") for n_ in names):
+        return 75
+    if any(n_.startswith("gauss20") for n_ in names):
+        return 21
+    return None
 
 
 def gen_cases(tier, seed):
@@ -110,6 +125,12 @@ def run_case(case, rec):
     if "paracrystal" in name:
         pars["d_factor"] = float(rng.uniform(0.25, 0.6))
         pars["dnn"] = float(rng.uniform(1.5, 3.0))*2*pars.get("radius", 40.0)
+    # count-like parameters (n_stacking) are real-valued in the interface: every third case uses a fractional value
+    if k % 3 == 2:
+        for p_ in i.parameters.kernel_parameters:
+            if p_.name.startswith("n_") and p_.length == 1 and p_.name in pars:
+                pars[p_.name] = float(int(pars[p_.name])) + float(rng.uniform(0.5, 0.99))
+                rec.bucket("fractional_count_parameter")
     r = sas.raw(i)
     v = r.flat({kk: pars[kk] for kk in pars if kk not in ("scale", "background")})
     hi = hi_raw(i)
@@ -149,6 +170,18 @@ def run_case(case, rec):
         one_hi = hi.Iq(q, hi.flat({kk: pars[kk] for kk in pars if kk not in ("scale", "background")})) if hi else one
         hi_budget[0] -= _time.perf_counter() - t0
         mod_err = abs(one - one_hi)
+        # where the shipped (even) rule and the finer one agree to 1e-10 the integrand is resolved, and a rule of
+        # the neighbouring odd size, which users select through generate.set_integration_size, must agree too
+        if hi and np.isfinite(one) and one != 0 and mod_err <= 1e-10*abs(one) and odd_size(i):
+            odd = hi_raw(i, odd_size(i))
+            if odd is not None:
+                one_odd = odd.Iq(q, odd.flat({kk: pars[kk] for kk in pars if kk not in ("scale", "background")}))
+                okodd = abs(one_odd - one) <= 1e-7*abs(one)
+                rec.check("integration_size_independent_where_resolved", okodd,
+                          None if okodd else {"model": name, "pars": pars, "q": float(q), "shipped_rule": one,
+                                              "finer_rule": one_hi, "odd_rule_size": odd_size(i), "odd_rule": one_odd,
+                                              "rel_err": abs(one_odd - one)/abs(one)})
+                rec.bucket("odd_rule_compared")
         qsz = q*size
         rec.bucket("qsize<1" if qsz < 1 else "qsize>5" if qsz > 5 else "qsize:1..5")
         if not (np.isfinite(one) and np.isfinite(a2)) or a2 == 0:
